@@ -346,7 +346,11 @@ pub(crate) fn rfc1071_checksum(bytes: &[u8]) -> u16 {
             sum += bytes[i + 1] as u32;
         }
     }
-    !((sum >> 16) + sum) as u16
+    // Fold the carries back in until none is left: a single fold can carry again
+    while sum >> 16 != 0 {
+        sum = (sum >> 16) + (sum & 0xffff);
+    }
+    !(sum as u16)
 }
 
 /// Returns [`true`] if the address appears to be globally routable.
